@@ -64,18 +64,21 @@ impl Copyright {
         self.0.paragraphs().next().map(Header)
     }
 
-    /// Iterate over all files paragraphs
+    /// Iterate over all files paragraphs (the first paragraph is the header)
     pub fn iter_files(&self) -> impl Iterator<Item = FilesParagraph> {
         self.0
             .paragraphs()
+            .skip(1)
             .filter(|x| x.contains_key("Files"))
             .map(FilesParagraph)
     }
 
-    /// Iter over all license paragraphs
+    /// Iter over all stand-alone license paragraphs (the first paragraph is
+    /// the header, even when it carries a License field)
     pub fn iter_licenses(&self) -> impl Iterator<Item = LicenseParagraph> {
         self.0
             .paragraphs()
+            .skip(1)
             .filter(|x| !x.contains_key("Files") && x.contains_key("License"))
             .map(LicenseParagraph)
     }
